@@ -11,12 +11,13 @@ git -C /repo worktree add -q $WT HEAD || exit 2
 trap "git -C /repo worktree remove --force $WT" EXIT
 PLACE=$(python3 -c "import json;print(json.load(open('$SRC/meta.json'))['demo_place_in'])")
 PLACE=${PLACE%/}
+RACE=$(python3 -c "import json;print('-race' if '-race' in json.load(open('$SRC/meta.json')).get('demo_run','') else '')")
 RUNPAT=$(grep -o 'func Test[A-Za-z0-9_]*' $SRC/demo_test.go | sed 's/func //' | paste -sd'|')
 cp $SRC/demo_test.go $WT/$PLACE/zz_demo_seed_test.go
-(cd $WT && $GO test -vet=off -count=1 -run "^($RUNPAT)\$" ./$PLACE/ >/tmp/confirm_$ID.clean 2>&1); CLEAN=$?
+(cd $WT && $GO test $RACE -vet=off -count=1 -run "^($RUNPAT)\$" ./$PLACE/ >/tmp/confirm_$ID.clean 2>&1); CLEAN=$?
 git -C $WT apply $SRC/patch.diff || { echo "$ID: patch does not apply"; exit 1; }
 (cd $WT && $GO build ./... >/tmp/confirm_$ID.build 2>&1); BUILD=$?
-(cd $WT && $GO test -vet=off -count=1 -run "^($RUNPAT)\$" ./$PLACE/ >/tmp/confirm_$ID.mut 2>&1); MUT=$?
+(cd $WT && $GO test $RACE -vet=off -count=1 -run "^($RUNPAT)\$" ./$PLACE/ >/tmp/confirm_$ID.mut 2>&1); MUT=$?
 rm -f $WT/$PLACE/zz_demo_seed_test.go
 (cd $WT && $GO test -vet=off -count=1 ./... >/tmp/confirm_$ID.suite 2>&1); SUITE=$?
 echo "$ID: demo_clean_rc=$CLEAN build_rc=$BUILD demo_mutated_rc=$MUT suite_with_change_rc=$SUITE"
